@@ -22,6 +22,8 @@ type c12Round struct {
 	// K: answer the K-th transmission (1..N+1); 0 = answer none (the peer is dead from here on)
 	K int `json:"k"`
 	// Special: "" | "dup" (answer twice) | "wrongseq" (answer with another sequence number first, then properly at K)
+	// | "peerhb" (K = 1: the answer is held back and the peer sends a Heartbeat Request of its own while the
+	// agent's request is outstanding)
 	Special string `json:"special,omitempty"`
 }
 
@@ -39,7 +41,10 @@ func genC12(t *rapid.T) c12Case {
 	nr := rapid.IntRange(1, 3).Draw(t, "rounds")
 	for i := 0; i < nr; i++ {
 		r := c12Round{K: rapid.IntRange(1, c.N+1).Draw(t, "k")}
-		r.Special = rapid.SampledFrom([]string{"", "", "", "dup", "wrongseq"}).Draw(t, "special")
+		r.Special = rapid.SampledFrom([]string{"", "", "", "dup", "wrongseq", "peerhb"}).Draw(t, "special")
+		if r.Special == "peerhb" {
+			r.K = 1
+		}
 		c.Rounds = append(c.Rounds, r)
 	}
 	if rapid.Bool().Draw(t, "dies") {
@@ -57,6 +62,21 @@ type hbTracker struct {
 	answered map[uint32]time.Time // when the proper answer was sent
 	slow     map[uint32]bool
 	dead     bool
+	peerHB   []time.Time // when the peer sent a heartbeat of its own into an outstanding agent heartbeat
+}
+
+// holdBack is how long a "peerhb" round keeps the agent's heartbeat unanswered: short of a retransmission
+// and at least 80 ms short of the next tick, so that the agent's ticker cannot fire meanwhile; 0 = the
+// configuration leaves no such window.
+func (c c12Case) holdBack() time.Duration {
+	d := c.RespMs - 20
+	if c.HBMs-80 < d {
+		d = c.HBMs - 80
+	}
+	if d < 55 {
+		return 0
+	}
+	return time.Duration(d) * time.Millisecond
 }
 
 // policy answers according to the round the sequence number belongs to.
@@ -89,6 +109,19 @@ func (h *hbTracker) policy(n int, seq uint32) (bool, time.Duration) {
 		return false, 0
 	}
 	k := h.tx[seq]
+	if r.Special == "peerhb" && k == 1 {
+		if d := h.c.holdBack(); d > 0 {
+			h.answered[seq] = time.Now().Add(d)
+			go func(round int) {
+				time.Sleep(d - 5*time.Millisecond)
+				h.mu.Lock()
+				h.peerHB = append(h.peerHB, time.Now())
+				h.mu.Unlock()
+				h.p.Keepalive(0x7a0000 + uint32(round))
+			}(round)
+			return true, d
+		}
+	}
 	if r.Special == "wrongseq" && k < r.K {
 		// a response with a sequence number nobody asked for must not count as an answer
 		_ = h.p.Send(message.NewHeartbeatResponse((seq+77)&0xffffff, ie.NewRecoveryTimeStamp(model.PeerTS)))
@@ -215,6 +248,20 @@ func runC12(c c12Case, ev *Ev) error {
 				return fmt.Errorf("round %d: unanswered request seq %d was transmitted %d times, want 1 + max_req_retries = %d", ri, seq, len(txs), c.N+1)
 			}
 		}
+	}
+	// a heartbeat from the peer postpones the agent's next one, also while one of the agent's own is outstanding
+	h.mu.Lock()
+	peerHB := append([]time.Time(nil), h.peerHB...)
+	h.mu.Unlock()
+	hbI := time.Duration(c.HBMs) * time.Millisecond
+	for _, at := range peerHB {
+		for _, seq := range order {
+			first := bySeq[seq][0].TS
+			if first.After(at.Add(5*time.Millisecond)) && first.Before(at.Add(hbI-40*time.Millisecond)) {
+				return fmt.Errorf("the peer sent a Heartbeat Request while the agent's own was outstanding, yet the agent's next heartbeat (seq %d) followed only %v later (heart_beat_interval %v): the peer's heartbeat did not postpone it", seq, first.Sub(at), hbI)
+			}
+		}
+		nontriv = true
 	}
 	// distinct requests use distinct sequence numbers by construction of the grouping; sequence numbers must not be reused later
 	seen := map[uint32]int{}
